@@ -226,17 +226,34 @@ def main(argv=None):
         repo_src = os.path.join(os.path.realpath(os.environ.get("QVERIF_REPO", "/repo")), "src", "quantem")
         frames = traceback.extract_tb(e.__traceback__)
         in_real = [f for f in frames if os.path.realpath(f.filename).startswith(repo_src)]
-        if not in_real or "lean" not in locals():
+        in_props = [f for f in frames if "/harness/props/" in f.filename]
+        infra_exc = isinstance(e, (MemoryError, BrokenPipeError, TimeoutError, ConnectionError, EOFError)) or \
+            (frames and "/harness/qv/driver" in frames[-1].filename)
+        if "lean" not in locals() or (not in_real and (not in_props or infra_exc)):
             print("INFRA-ERROR: harness crashed")
             return 2
-        last = in_real[-1]
-        ctx.disagreements.append({
-            "stream": "exception-in-real-code", "case": {"raised_at": f"{os.path.relpath(last.filename, repo_src)}:{last.lineno} in {last.name}",
-                                                         "harness_frame": next((f"{os.path.basename(f.filename)}:{f.lineno} in {f.name}"
-                                                                                for f in reversed(frames) if "/harness/props/" in f.filename), "?")},
-            "model": "no exception (the harness completes on the unchanged tree)",
-            "impl": f"{type(e).__name__}: {str(e)[:300]}",
-            "note": "the implementation raised inside a harness stream that does not expect an exception there"})
+        if not in_real:
+            # The property's own harness code raised while it was digesting what the real code RETURNED
+            # (a missing key, a different shape or type): every registered check runs to completion on the
+            # unchanged tree for this seed, so the implementation's output has changed in a way the
+            # correspondence cannot follow.  That is a broken tie, reported like any other (failing inputs
+            # found before the crash are still reported); process / driver / memory failures stay exit 2.
+            hf = in_props[-1]
+            ctx.disagreements.append({
+                "stream": "harness-cannot-interpret-implementation",
+                "case": {"harness_frame": f"{os.path.basename(hf.filename)}:{hf.lineno} in {hf.name}", "source_line": (hf.line or "")[:200]},
+                "model": "the harness completes on the unchanged tree",
+                "impl": f"{type(e).__name__}: {str(e)[:300]}",
+                "note": "the real code returned something the correspondence stream cannot digest (e.g. a missing key or a changed shape)"})
+        else:
+            last = in_real[-1]
+            ctx.disagreements.append({
+                "stream": "exception-in-real-code", "case": {"raised_at": f"{os.path.relpath(last.filename, repo_src)}:{last.lineno} in {last.name}",
+                                                             "harness_frame": next((f"{os.path.basename(f.filename)}:{f.lineno} in {f.name}"
+                                                                                    for f in reversed(frames) if "/harness/props/" in f.filename), "?")},
+                "model": "no exception (the harness completes on the unchanged tree)",
+                "impl": f"{type(e).__name__}: {str(e)[:300]}",
+                "note": "the implementation raised inside a harness stream that does not expect an exception there"})
 
     if lean.get("translator_note") and "<translator>" not in lean["failed"]:
         print(f"NOTE: translator fallback ({lean['translator_note'][:200]}): all obligations hold of the last good translation and the "
